@@ -92,7 +92,9 @@ func termFeatures(ts []*Term, c *Ctx) (quant, uf, arr, ints bool) {
 			uf = true
 			if d := c.Funcs[t.Name]; d != nil {
 				if d.DefBody != nil {
+				if d.Rec {
 					quant = true // recursive definitions need the quantifier-capable engines
+				}
 					rec(d.DefBody)
 				}
 				for _, ax := range c.Axioms[t.Name] {
@@ -154,7 +156,8 @@ func prepare(c *Ctx, o *Obligation, workDir string) *Result {
 		c.SkipQuantAxioms = true
 		defer func() { c.SkipQuantAxioms = false }()
 	} else {
-		asserts = []*Term{o.Assume, c.Not(o.Goal)}
+		asserts = []*Term{o.Assume, c.NegSkolem(o.Goal)}
+		asserts = append(asserts, frameInstances(c, asserts)...)
 	}
 	q, uf, arr, ints := termFeatures(asserts, c)
 	logic := pickLogic(q, uf, arr, ints)
